@@ -41,6 +41,13 @@ func (t *Writer) Emit(ev map[string]any) int {
 	return t.n
 }
 
+// Flush writes the buffered lines to the file (so that they survive the death of the process).
+func (t *Writer) Flush() error {
+	t.mu.Lock()
+	defer t.mu.Unlock()
+	return t.w.Flush()
+}
+
 func (t *Writer) Len() int { t.mu.Lock(); defer t.mu.Unlock(); return t.n }
 
 func (t *Writer) Close() error {
